@@ -154,7 +154,9 @@ func propC11Sequential(t *rapid.T) {
 		{uint64(n), uint64(m), tick, th, map[c11Key]*c11Window{}},
 		{uint64(n), uint64(m), tick, th, map[c11Key]*c11Window{}},
 	}
-	clock := rapid.Int64Range(0, 5).Draw(t, "t0")
+	// the epoch of the entries' stamps has nothing to do with the clock of the process that samples them (replayed
+	// batches, simulated time, hosts with a wrong date): 1970, 2019, 2200
+	clock := rapid.SampledFrom([]int64{0, 0, 1559347200e9, 7258118400e9}).Draw(t, "stampEpoch") + rapid.Int64Range(0, 5).Draw(t, "t0")
 	straggler := false
 	cnt := rapid.IntRange(1, 60).Draw(t, "entries")
 	boundary, dropped, thereafterAdmit, collided := false, false, false, false
